@@ -24,7 +24,7 @@ from harness.gnpy_util import EX, TD, REPO, equipment
 from harness import workbook_util as wu
 
 ROOT = Path(__file__).resolve().parent.parent.parent
-QUICK_VALID = 260
+QUICK_VALID = 190
 
 
 class Bench:
@@ -98,7 +98,16 @@ def _work(job):
     if 'eq' not in _WORK:
         _WORK['eq'] = equipment('eqpt_config.json')
     path = Path(wd) / f'worker-{os.getpid()}.xlsx'
-    wu.write_xlsx(wb, path, as_int=as_int)
+    # every second workbook with services is split in two files: the topology workbook and a workbook holding only the
+    # Service sheet (as tests/data/testService.xls is); the route lists are then resolved against the TOPOLOGY workbook
+    split = bool(wb['services']) and n % 2 == 0
+    svc_path = None
+    if split:
+        svc_path = Path(wd) / f'worker-{os.getpid()}-svc.xlsx'
+        wu.write_xlsx(dict(wb, services=[]), path, as_int=as_int)
+        wu.write_xlsx(wb, svc_path, as_int=as_int, with_topology=False)
+    else:
+        wu.write_xlsx(wb, path, as_int=as_int)
     if n % 2 and wb['nodes']:
         from gnpy.tools.convert import xls_to_json_data
         try:
@@ -106,9 +115,9 @@ def _work(job):
         except Exception:                        # noqa  the filtered sub-network may well be invalid: not judged
             pass
     try:
-        return n, run_real(path, _WORK['eq'], bool(wb['services']), bidir)
+        return n, run_real(path, _WORK['eq'], bool(wb['services']), bidir, service_path=svc_path)
     finally:
-        for f in Path(wd).glob(f'worker-{os.getpid()}_services.json'):
+        for f in Path(wd).glob(f'worker-{os.getpid()}*_services.json'):
             f.unlink()
 
 
@@ -167,16 +176,21 @@ def run(chk):
             'eqpt_unknown_link', 'duplicate_eqpt', 'two_eqpt_on_ila'}
     if not need <= kinds_seen:
         raise Machinery(f'violation kinds never generated: {need - kinds_seen}')
+    canonical = {'ROADM', 'ILA', 'FUSED', 'other', ''}
+    spelled = [c for c in cases if any(n['type'] not in canonical for n in c['wb']['nodes'])]
+    spelled_ids = {id(c) for c in spelled}
     by_kind = {}
     for c in cases:
-        if c['kinds']:
+        if c['kinds'] and id(c) not in spelled_ids:
             by_kind.setdefault('+'.join(sorted(c['kinds'])), []).append(c)
     special = [c for c in cases if c['wb']['services'] or c['inconsistent']]
+    special += rng.sample(spelled, min(60, len(spelled)))         # other spellings of the site types
     for k in sorted(by_kind):                    # quick: every mutated workbook; of the kind that also arises
         cap = 12 if len(by_kind[k]) > 40 else len(by_kind[k])      # naturally in the product (two rows on an ILA) 12
         special += rng.sample(by_kind[k], cap)
     undecided = [c for c in cases if c['undecided']]
-    plain = [c for c in cases if not (c['kinds'] or c['wb']['services'] or c['undecided'] or c['inconsistent'])]
+    plain = [c for c in cases if not (c['kinds'] or c['wb']['services'] or c['undecided'] or c['inconsistent'])
+             and id(c) not in spelled_ids]
     todo = cases if chk.tier == 'thorough' else \
         special + rng.sample(undecided, min(10, len(undecided))) + rng.sample(plain, min(QUICK_VALID, len(plain)))
     bench = Bench()
